@@ -15,7 +15,7 @@ EXPLANATION = (
     "stores the point and counts it exactly once on every successful path; size announced and bytes drained per stream are "
     "selected by the same last_flush condition; section_length grows by exactly the packet_length written into the packet "
     "header; every packet is followed by align; the raw iterator yields only while read < records with one increment per "
-    "yield and pops one value per prototype entry in order; writer and reader compute the same bit width. Not decided: "
+    "yield and pops one value per prototype entry in order; writer and reader compute the same bit width. Also the bit-packing rules of C12 (stored form, add_bits decided algebraically, extraction window, append) and the page-reload loop of C11-R6, because a raw value only survives if those hold. Not decided: "
     "bit-exactness of the packed values and packet-capacity arithmetic (run-time quantities).")
 
 
